@@ -562,6 +562,8 @@ SYNTHETIC = [
     ('[C:1][N:2]', 'mol:[CH3:1][NH2:2].[OH2:5]', 'Element replacement: matched atoms recalculated, new atom keeps its H'),
     ('[C:1]=[O:2]', '[C:1](-[O;h1:2])-[O;h1:3]', 'h clauses: matched atom recalculated, new atom takes the clause'),
 ]
+ENOLS = ['C/C=C(/C)O', 'OC(\\C)=C/C', 'C/C=C/OC', 'CO/C=C/C', 'C/C=C(\\C)OC', 'Cl/C=C/C', 'C/C=C/Cl', 'CC/C=C(/C)O', 'C/C(O)=C/CC', 'N/C(C)=C/C', 'C/C=C(/C)N',
+         'C/C=C(/O)CC', 'O/C=C/C', 'C/C=C/O', 'F/C(C)=C/C', 'C/C=C(/C)F', 'CC(/O)=C/C=C/C', 'C/C=C/C(/C)=C/O']
 CISTRANS = ['C/C=C/CO', 'F/C=C\\Cl', 'C/C=C\\CCO', 'OC/C=C/C=C/C', 'CC=[C@]=CCO', 'C/C=C/C(=O)OCC', 'N/C(C)=C/CCl', 'OCC=[C@@]=CC', 'C/C=C/CN', 'Cl/C=C/CCBr',
             'C/C(Cl)=C/CC#N', 'O/C=C/C[N+](C)(C)C']
 STEREO = ['C[C@H](N)C(=O)O', 'C[C@@H](O)CC(=O)OCC', 'C[C@@H]1CC[C@H](O)CC1', 'OC[C@H]1O[C@@H](O)[C@H](O)[C@@H](O)[C@@H]1O', 'N[C@@H](CO)C(=O)O',
@@ -687,7 +689,7 @@ def corr_patcher(ck):
     small = ['CCO', 'CC(=O)O', 'CCN', 'NCCO', 'CCOCC', 'c1ccccc1Cl', 'CC(=O)OCC', 'C1N2CC1C2', 'C1N(F)N(C1)Cl', 'OC1CC2CC1C2', 'CC#N',
              'C[N+](C)(C)CC(=O)[O-]', 'CC(N)C(=O)O', 'Brc1ccc(O)cc1', 'C[C@H](N)C(=O)O', 'C/C=C/CO', 'OCC1CO1', 'CC(C)OCc1ccccc1',
              '[13CH3]CO', 'CCO.CCN', 'C[CH]O |^1:1|', 'NN', 'CN(C)N', 'O', 'CO']
-    pool = CISTRANS + HALIDES + small + DECORATED + STEREO + corpus.sample(corpus.lipo(), 40 if quick else 400, ck.seed, 'c16p')
+    pool = ENOLS + CISTRANS + HALIDES + small + DECORATED + STEREO + corpus.sample(corpus.lipo(), 40 if quick else 400, ck.seed, 'c16p')
     mols = []
     for smi in pool:
         try:
@@ -751,6 +753,10 @@ def corr_patcher(ck):
     ck.oblige(f'correspondence: structure of BaseReactor._patcher results == Coq patcher_with {MODEL_FUNCTION} '
               '(atom/neighbour dict order, element, isotope, charge, radical, copied hydrogens, bond orders, extended mapping)',
               ok and not failing, 'correspondence', log or str([batch.meta[i] for i in failing[:5]]))
+    ck.oblige('the stereo labels of the product are observable at the call of fix_stereo inside every _patcher call', batch.unobservable == 0,
+              'correspondence', f'{batch.unobservable} calls without observable labels')
+    if batch.unobservable and ok and not failing:
+        ck.unchecked('correspondence of the stereo labels stored by _patcher', f'{batch.unobservable} calls: fix_stereo was not called from _patcher')
     ck.extra['patcher_cases'] = len(batch.cases)
     ck.extra['patcher_deprotection_cases'] = n_dp
     if batch.cases:
@@ -1309,6 +1315,39 @@ def check_product(ck, t, mol, mapping0, prod, smi, tname, frame=True):
         if got_sign != a.stereo:
             bad('frame-stereo', f'tetrahedral centre {n} is not named by the template, keeps all its neighbours, but its configuration is inverted',
                 {'sign relative to ' + str(st_m[n]): got_sign}, {'sign relative to ' + str(st_m[n]): a.stereo})
+    # cis/trans bonds the template does not rewrite (chain and substituents survive, same bond orders): the label must not be
+    # lost while the bond is still a stereo bond of the product, and must denote the same arrangement of the same neighbours
+    try:
+        cums = mol.stereogenic_cis_trans
+        pct, chiral = prod.stereogenic_cis_trans, prod.chiral_cis_trans
+    except Exception:
+        cums, pct, chiral = {}, {}, set()
+    for (a1, a2), env in cums.items():
+        try:
+            s_old = mol._translate_cis_trans_sign(a1, a2, env[0], env[1])
+        except Exception:
+            continue
+        atoms_env = {a1, a2} | {x for x in env if x is not None}
+        if atoms_env & deleted or any(x not in prod._atoms for x in atoms_env):
+            continue
+        key = (a1, a2) if (a1, a2) in pct else (a2, a1) if (a2, a1) in pct else None
+        if key is None or {x for x in pct[key] if x is not None} != {x for x in env if x is not None}:
+            continue
+        path_ok = all(k in prod._bonds[n] and int(prod._bonds[n][k]) == int(bd) for n in (a1, a2) for k, bd in mol._bonds[n].items() if k in atoms_env)
+        if not path_ok:
+            continue
+        ck.count('search:cis/trans bonds compared' + (' (product lists the terminals in the other order)' if key != (a1, a2) else ''))
+        try:
+            s_new = prod._translate_cis_trans_sign(a1, a2, env[0], env[1])
+        except Exception:
+            s_new = None
+        if s_new is None:
+            if key in chiral or key[::-1] in chiral:
+                bad('frame-stereo-bond-lost', f'E/Z label of the double bond {a1}={a2}, which the template does not rewrite, is lost although the bond is still a stereo bond',
+                    'no label', {'arrangement of ' + str((env[0], env[1])): s_old})
+        elif s_new != s_old:
+            bad('frame-stereo-bond', f'configuration of the double bond {a1}={a2}, which the template does not rewrite, is inverted',
+                {'arrangement of ' + str((env[0], env[1])): s_new}, {'arrangement of ' + str((env[0], env[1])): s_old})
     newnum = dict(zip(new_atoms, range(max(mol) + 1, max(mol) + 1 + len(new_atoms))))
     img = lambda n: mapping0[n] if n in mapping0 else newnum[n]
     for n, ra in rep.atoms():
@@ -1349,7 +1388,7 @@ def search_templates(ck):
     from chython.reactor import deprotection as dp
     rng = random.Random(f'{ck.seed}:c16st')
     quick = ck.tier == 'quick'
-    pool = HALIDES + DECORATED + STEREO + BRIDGED + corpus.sample(corpus.lipo(), 150 if quick else 1500, ck.seed, 'c16s')
+    pool = ENOLS + HALIDES + DECORATED + STEREO + BRIDGED + corpus.sample(corpus.lipo(), 150 if quick else 1500, ck.seed, 'c16s')
     mols = []
     for smi in pool:
         try:
@@ -1380,7 +1419,7 @@ def search_templates(ck):
                 pass
         hits = 0
         for smi, m in extra + mols:
-            if hits >= (12 if quick else 100):
+            if hits >= (30 if quick else 120):
                 break
             maps = [dict(x) for x in t_raw._pattern.get_mapping(m, automorphism_filter=True)]
             if not maps:
@@ -1511,7 +1550,7 @@ def search_identity(ck):
             '[C:1][S:2]', '[C;M:1][O:2]', '[C;a:1][Cl:2]', '[C:1][F:2]']
     anyrep = {'[C:1][O:2]': '[A:1][A:2]', '[C:1]=[O:2]': '[A:1]=[A:2]', '[C:1][C:2][C:3]': '[A:1][A:2][A:3]', '[C;a:1]:[C;a:2]': '[A:1]:[A:2]',
               '[C;M:1][O:2]': '[A:2]'}
-    pool = BRIDGED + ['C[C@H](N)C(=O)O', 'C/C=C/CO', 'F/C=C\\Cl', 'C[C@@H]1CC[C@H](O)CC1', 'OC[C@H]1O[C@@H](O)[C@H](O)[C@@H](O)[C@@H]1O',
+    pool = ENOLS + BRIDGED + ['C[C@H](N)C(=O)O', 'C/C=C/CO', 'F/C=C\\Cl', 'C[C@@H]1CC[C@H](O)CC1', 'OC[C@H]1O[C@@H](O)[C@H](O)[C@@H](O)[C@@H]1O',
                       'CC=[C@]=CCO', 'C[N+](C)(C)CC(=O)[O-]', '[13CH3]CO', 'C[CH]O |^1:1|'] + \
         corpus.sample(corpus.lipo(), 120 if quick else 1200, ck.seed, 'c16id')
     n = 0
@@ -1522,7 +1561,7 @@ def search_identity(ck):
                 t = Transformer(smarts(pat), smarts(rep), fix_aromatic_rings=not raw)
                 hits = 0
                 for smi in pool:
-                    if hits >= (10 if quick else 80):
+                    if hits >= (26 if quick else 100):
                         break
                     try:
                         m = smiles(smi)
